@@ -28,7 +28,7 @@ MANIFEST = dict(
 
 COMPONENTS = ["expr"]
 TARGETS = []
-RULE = ("all ladder-well-formed trees with <= 3 operator/group nodes (<= 4 in thorough, sampled) over 9 binary kinds and not/neg/group, spellings and operands assigned round-robin so every spelling and operand kind occurs; "
+RULE = ("all ladder-well-formed trees with <= 3 operator/group nodes (<= 4 in thorough) over 9 binary kinds and not/neg/group, spellings and operands assigned round-robin so every spelling and operand kind occurs; "
         "every comparison spelling (upper/lower/mixed case) in 8 fixed contexts; random trees up to depth 8; each in one of six positions round-robin; "
         "non-trivial = at least two operators; distinct by rendered source text + position")
 EXPLANATION = ("Known findings are the genuine defects: '%' parsed as a comparison operator, the textual in_parenthesis test dropping outer parentheses of '(x) op (y)', "
@@ -777,7 +777,7 @@ def known_shape(t):
 def shape(t):
     k = t[0]
     if k in ("leaf", "func"):
-        return k if k == "func" else t[1][0]
+        return "f" if k == "func" else "x"
     if k == "ar":
         return "%s(%s,%s)" % (t[1], shape(t[2]), shape(t[3]))
     if k == "cmp":
@@ -970,12 +970,10 @@ def gen_cases(ctx):
     for n in range(0, nmax + 1):
         shp = shapes(n)
         for s in shp:
-            if n == 4 and rng.random() > 0.25:
-                continue
             # the stored value of an expression-typed key is the outermost group
             trees.append(("exhaustive", ("grp", instantiate(s, cy))))
             n_exh += 1
-    n_rand = ctx.budget(2500, 40000)
+    n_rand = ctx.budget(6000, 40000)
     for _ in range(n_rand):
         d = rng.choice([2, 3, 4, 5, 6, 8])
         t = ("grp", rand_tree(rng, 0, d, cy))
@@ -1055,7 +1053,10 @@ def run(ctx):
                 return hunt_one(impl, c, _pos) is not None and not known_shape(c)
             if not kn:
                 viol_seen["unknown"] = viol_seen.get("unknown", 0) + 1
-                small = shrink_tree(t, fails_unknown) if viol_seen["unknown"] <= 8 else t
+                if viol_seen["unknown"] > 6:
+                    ctx.count("further_unlisted_failures")
+                    continue
+                small = shrink_tree(t, fails_unknown)
             else:
                 key = (tuple(sorted(kn)), bad[0])
                 if key in viol_seen and viol_seen[key] >= 3:
